@@ -404,6 +404,16 @@ func loop(st *streams, s *kit.Summary, x *in, forced bool) {
 	}
 }
 
+func ampSign(x *in) string {
+	switch {
+	case x.AmpFreq < 0 && x.AmpPer > 0 || x.AmpFreq > 0 && x.AmpPer < 0:
+		return "negative"
+	case x.AmpFreq == 0:
+		return "zero"
+	}
+	return "positive"
+}
+
 func typicalInterval(x *in) int64 {
 	var hpn float64
 	switch x.Pacer {
@@ -452,7 +462,7 @@ func runC01(c *run.Ctx, s *kit.Summary) {
 	st := newStreams(c, s)
 	s.Rule = "points: (kind, params, elapsed, hits) with params from every time unit, extremes of the integer ranges, Freq≷Per, zero/negative, " +
 		"hits around the schedule and around MaxInt64/interval; loops: closed loop in virtual time from (0,0), random stall histories " +
-		"(none / sparse / bursts / jitter), sine/linear loops at 1..1e6 hits/s (a few up to and above one hit per nanosecond), " +
+		"(none / sparse / bursts / jitter), sine/linear loops at 1..1e6 hits/s, sine amplitudes of both signs with |amp|/mean from 0 to 0.999999 (a few up to and above one hit per nanosecond), " +
 		"corpus/C01 witnesses first; non-trivial = positive (valid) parameters for a point, ≥10 released hits for a loop"
 	if c.Replay != "" {
 		replay(c, s, st)
@@ -515,6 +525,7 @@ func runC01(c *run.Ctx, s *kit.Summary) {
 		x.Mode = "point"
 		x.Elapsed, x.Hits = genSinePoint(r, x, real)
 		s.Count(fmt.Sprintf("sine.params:realistic=%v", real))
+		s.Count("sine.point:amp_sign=" + ampSign(x))
 		point(st, s, x, i%4 == 0)
 		if i < 1 {
 			s.Sample(x)
@@ -577,6 +588,7 @@ func runC01(c *run.Ctx, s *kit.Summary) {
 	for i := 0; i < c.N(100, 1200); i++ {
 		x := genSineRealistic(r)
 		x.Mode, x.Steps = "loop", steps
+		s.Count("sine.loop:amp_sign=" + ampSign(x))
 		x.Stalls = genStalls(r, x.Steps, typicalInterval(x))
 		loop(st, s, x, true)
 	}
